@@ -16,7 +16,8 @@ LEVEL_TEXT = 'Bitwise oracle: every event that sat at an original range limit mu
 TECHNIQUE = 'runtime contract on conversions (bitwise limit-vs-saturated-event oracle) + commutation checker of two real pipelines'
 RULE = ('integer samples with events at 0, 1, R-2, R-1 in every channel x R in {2^8..2^18,1000,1023}, and (1 in 4) single/double precision samples with events on both limits, non-power-of-two gains and log amplifiers x amplifier '
         'settings x standard curves m in [0.85,1.25], b in [0,7] x channel subsets; non-trivial = a log channel or a '
-        'power-law curve is involved (pow evaluation); distinct = digest(sample, parameters)')
+        'power-law curve is involved (pow evaluation); distinct = digest(sample, parameters)'
+        ' Also: requests by position counted from the last channel, samples emptied by a gate (limits still follow the parameters).')
 ASSUMPTIONS = ['equality is bitwise; holds for the NumPy build in /venv (vectorised pow)']
 MIN_CHECKS = {'quick': 6000, 'thorough': 150000}
 REQUIRED_COUNTERS = ['chk_c07_limit_events', 'chk:commute']
